@@ -11,6 +11,7 @@ import (
 	"os/exec"
 	"path/filepath"
 	"strings"
+	"time"
 
 	"github.com/ja7ad/otp"
 )
@@ -54,6 +55,7 @@ type wasmEvent struct {
 	Args  []JArg         `json:"args"`
 	Ret   JRet           `json:"ret"`
 	Step0 B              `json:"step0"`
+	Nat   JRet           `json:"nat"` // what the NATIVE library of the same tree answers for the same call (verdict calls only)
 	Orc   []Mac          `json:"orc"`
 	Up    map[string]any `json:"up"`
 }
@@ -64,7 +66,7 @@ type wasmGen struct {
 }
 
 func (g *wasmGen) add(scn, fn, cls string, probe bool, args []JArg, fill func(*wasmEvent)) {
-	e := wasmEvent{Scn: scn, Fn: fn, Cls: cls, Probe: probe, Args: args, Step0: W64(0), Orc: []Mac{}, Ret: JRet{T: "missing", S: B{}},
+	e := wasmEvent{Scn: scn, Fn: fn, Cls: cls, Probe: probe, Args: args, Step0: W64(0), Orc: []Mac{}, Ret: JRet{T: "missing", S: B{}}, Nat: JRet{T: "none", S: B{}},
 		Up: map[string]any{"ok": false, "issuer": B{}, "account": B{}, "secret": B{}, "digits": 0, "alg": 0, "period": W64(0), "host": B{}}}
 	if fill != nil {
 		fill(&e)
@@ -242,6 +244,26 @@ func wasmScenarios(c *ctx) []wasmEvent {
 					[]JArg{jStr(sec), jStr(code2), jNum(ts), jStr("8"), jStr("SHA256"), jNum(s), jNum(30)}, func(e *wasmEvent) {
 						e.Step0 = W64(ts / 30)
 						e.Orc = allAlgWindow(kk, ts/30, int(ss)+margin)
+					})
+			}
+		}
+	}
+	// TOTP windows that reach below step 0: the property's reference there is the native library itself (its
+	// unsigned window wraps around), so the native verdict of the same tree is recorded next to the binding's
+	for _, sk := range []uint64{1, 2, 5, 10} {
+		k, sec := g.key()
+		for _, step := range []uint64{0, 1, sk - 1} {
+			for _, back := range []uint64{0, 1, sk, sk + 1} {
+				ts := step*30 + uint64(c.rng.Intn(30))
+				target := step - back // wraps for back > step
+				code := refHOTP(k, target, 6, 0)
+				nat, _ := otp.ValidateTOTP(sec, code, time.Unix(int64(ts), 0), &otp.Param{Digits: 6, Algorithm: otp.SHA1, Skew: uint(sk), Period: 30})
+				kk, st, ss := k, step, sk
+				g.add(fmt.Sprintf("C20/wrap/s%d/n%d/b%d", sk, step, back), "validateTOTP", "wellformed", false,
+					[]JArg{jStr(sec), jStr(code), jNum(ts), jStr("6"), jStr("SHA1"), jNum(sk), jNum(30)}, func(e *wasmEvent) {
+						e.Step0 = W64(st)
+						e.Nat = JRet{T: "boolean", S: B{}, Bo: nat}
+						e.Orc = allAlgWindow(kk, st, int(ss)+margin)
 					})
 			}
 		}
